@@ -248,7 +248,9 @@ class AliasWorld(WorldBase):
         e = self.add('c', obj, None, False, origin=origin, h=h)
         e.extra['kind'] = kind if kind in KINDS else ('Index' if isinstance(obj, IndexBase) else 'Series')
         e.extra['snap'] = s
-        e.extra['key'] = h64(canon(s))
+        # the state key leaves out label order and cells: set-like results of the library (union of unorderable labels in
+        # operator alignment) depend on the interpreter's hash seed, and the digest must not
+        e.extra['key'] = h64(canon([e.extra['kind'], origin, list(s.get('shape', [len(s.get('labels', []))]))]))
         self._check_arrays_of(e, origin, 'birth')
         return e
 
